@@ -118,7 +118,11 @@ def can_win_by_rules(s: State, i: int) -> bool | None:
         return None
     if s.statuses[i] and sum(1 for x in s.statuses if x) == 1:
         # a lone survivor takes everything there is, whatever he holds and however many board cards are out
-        # (with nothing in the middle - an ante refunded by trimming, say - there is nothing to win)
+        # (with nothing in the middle - an ante refunded by trimming, say - there is nothing to win).  A survivor
+        # whose own cards are not known is outside the quantifier ("every deal": real cards): with cards it cannot
+        # read the engine's default is to muck, also for the last hand standing - the F12c family, not decided here
+        if any(not c for c in s.hole_cards[i]):
+            return None
         return any(p.amount for p in pots)
     inplay = [c for row in s.board_cards for c in row if c] + [c for h in s.hole_cards for c in h if c]
     if len(inplay) != len(set(inplay)):
